@@ -59,7 +59,9 @@ class Shard:
     # ---- budgets -------------------------------------------------------------------
     def budget(self, quick, thorough):
         """Per-shard share of a total case budget."""
-        total = thorough if self.tier == 'thorough' else quick
+        # the thorough budgets named in the checks are the full depth (VERIF_THOROUGH_SCALE=1); by default a third of
+        # it is run, which keeps the whole thorough tier within about two hours on 16 cores
+        total = int(thorough * THOROUGH_SCALE) if self.tier == 'thorough' else quick
         return max(1, -(-total // self.n))
 
     def mine(self, items):
@@ -185,6 +187,9 @@ class Shard:
 
 
 # ------------------------------------------------------------------------------------
+
+THOROUGH_SCALE = float(os.environ.get('VERIF_THOROUGH_SCALE', '0.33'))
+
 
 def load_known(prop):
     path = os.path.join(ROOT, 'known_findings.json')
